@@ -156,8 +156,8 @@ def process(prog, kind, pidx, seed, growth=False, with_model=True, targets=None,
         for i in todo:
             variant = VARIANTS[(i + pidx) % len(VARIANTS)]
             U.clear_tables()
-            o = U.run_once(job, i, variant)
-            res["runs"] += 1
+            o = U.run_once(job, i, variant, again=True)
+            res["runs"] += 2
             if o["res"] == "timeout":
                 res["timeouts"] = res.get("timeouts", 0) + 1
                 continue
@@ -167,6 +167,12 @@ def process(prog, kind, pidx, seed, growth=False, with_model=True, targets=None,
                 res["failures"].append((trigger(prog, o, "later-render"), "later-render",
                                         {"program": prog, "kind": kind, "target": i, "variant": variant,
                                          "reference": after, "solo": solo, "source": describe(prog, kind)}))
+            if o.get("again") is not None and (o["again"] != dry["out"] or not o.get("ctx_same_after_again", True)):
+                res["failures"].append((trigger(prog, o, "later-render-same-context"), "later-render",
+                                        {"program": prog, "kind": kind, "target": i, "variant": variant,
+                                         "detail": "rendering again with the SAME Context object after the failed render differs from the fault-free render",
+                                         "again": o["again"], "fault_free": dry["out"], "context_before": o.get("ctx_before"),
+                                         "context_after": o.get("ctx_after"), "source": describe(prog, kind)}))
             if o["res"] == "ok":
                 res["failures"].append(("c06-fault-swallowed", "exception-replaced",
                                         {"program": prog, "kind": kind, "target": i, "variant": variant,
@@ -190,7 +196,7 @@ def process(prog, kind, pidx, seed, growth=False, with_model=True, targets=None,
             hist = [rng.choice([None, rng.randrange(n), rng.randrange(n)]) for _ in range(5)]
             U.TR.alloc = []
             items = []
-            cum_meta, cum_rc = set(), 0      # the stacks of earlier renders' objects stay as they were left
+            cum_meta, cum_rc, cum_cd = set(), 0, 0      # the stacks of earlier renders' objects stay as they were left
             for hi, t in enumerate(hist):
                 v = VARIANTS[(hi + pidx) % len(VARIANTS)]
                 o = U.run_once(job, t, v, keep_alloc=True)
@@ -206,7 +212,8 @@ def process(prog, kind, pidx, seed, growth=False, with_model=True, targets=None,
                                              "output": o["out"], "solo": dry["out"], "source": describe(prog, kind)}))
                 cum_meta |= set(o["meta"])
                 cum_rc += o["rc"]
-                items.append((t, v, dict(o, meta=sorted(cum_meta), rc=cum_rc)))
+                cum_cd += o.get("cd", 0)
+                items.append((t, v, dict(o, meta=sorted(cum_meta), rc=cum_rc, cd=cum_cd)))
             alloc = list(U.TR.alloc)
             res["seq_term"] = None if items is None else C.clist(["(%s, %s, %s, %s)" % (U.c_items(tree, labels), U.c_umsg(v), U.c_fault(t), U.c_obs(o, labels, alloc))
                                        for t, v, o in items])
